@@ -80,7 +80,11 @@ MANIFEST = dict(
          'c01_property_hypotheses_satisfiable and the obligation all_nine_hypotheses_... discharge them for the '
          'reference and for the regenerated objects. allow_escapes=False: the C03 tokenizer model with the option off '
          'is compared with Keyvalues.parse in correspondence:parse-chunked; computed witnesses that the round trip '
-         'fails under it; an oracle for trees that need no escaping.',
+         'fails under it; an oracle for trees that need no escaping. KV/KvShift.v: for write templates that are '
+         'sequences of writer lines (lines_ok over the generated templates: exactly one cur_indent at the start of each '
+         'line, a literal LF at its end, no LF in between) the text written at cur_indent c is the text written at the empty '
+         'cur_indent with c put in front of every LF-terminated line (ser_node_is_shift_of_unindented, '
+         'serialise_start_indent_shifts_writer_lines): the indent can never land inside a quoted string.',
     note='Trusted: Coq kernel + vm_compute, translate/c01_kvser.py (incl. re._parser for the character set of the '
          'escape patterns; checked per character against escape_text), translate/c01_kvloop.py (the symbolic reading of '
          'the loop body: alias tracking of four variables, classification of error messages by prefix) and '
